@@ -322,6 +322,11 @@ def finish(prop, tier, seed, obs, errs, t0, info, replay_fn=None):
     level = info.get("level", "other")
     if level == "proof" and (len(unb) != nob or nproved != nob):
         level = "other"
+    auto_expl = ("This run generated %d obligations from the current /repo source: %d unbounded (engines V/F/FP: hold for all inputs, "
+                 "lengths and iterations) of which %d discharged, and %d bounded-in-shape (engine S / stand-ins: all numeric values per shape, "
+                 "shapes up to the stated bound; NOT counted as proved) of which %d discharged. level is 'proof' only if every obligation is unbounded." % (
+                     nob, len(unb), sum(1 for o in unb if o["status"] == PROVED), nob - len(unb),
+                     sum(1 for o in obs if o["bounded"] and o["status"] == PROVED)))
     cov = dict(
         obligations=nob, discharged=nproved,
         unbounded_obligations=len(unb), unbounded_discharged=sum(1 for o in unb if o["status"] == PROVED),
@@ -332,7 +337,7 @@ def finish(prop, tier, seed, obs, errs, t0, info, replay_fn=None):
         by_engine=by_engine, functions_under_contract=fns,
         checker_cmd=info.get("checker_cmd", "./check %s --tier %s" % (prop, tier)),
         trusted_base=info.get("trusted_base", []),
-        explanation=info.get("explanation", ""),
+        explanation=(info.get("explanation", "") + " " + auto_expl).strip(),
         bounds=info.get("bounds", ""),
         evaluations=nob, distinct_nontrivial=len({o["id"] for o in obs}),
         rule=info.get("rule", "one obligation per (function, clause, shape, path); distinct by id"),
